@@ -1,9 +1,11 @@
-(* driver for the extracted C11 reader models.  argv: <max_depth|none> <cc_guard 0|1>
+(* driver for the extracted C11 reader models.  argv: <wkb max_depth|none> <cc_guard 0|1> [<wkt max_depth|none>]
    one case per line:  B <hex of WKB bytes> | H <hex of the HEX text> | T <hex of the WKT text>
    one result per line: ACC <structure> (ACC? = accepted unless the floating-point envelope of a non-tame arc throws) srid=<n> | <stats>   or   REJ <error> | <stats>   or   UB | <stats>   or  FUEL *)
 let max_depth = if Array.length Sys.argv > 1 && Sys.argv.(1) <> "none" then Some (z_of_int (int_of_string Sys.argv.(1))) else None
 let guard = Array.length Sys.argv > 2 && Sys.argv.(2) = "1"
 let cfg = { max_depth = max_depth; cc_guard = guard }
+(* the WKT reader has its own limit (third argument; defaults to the first) *)
+let cfg_wkt = { max_depth = (if Array.length Sys.argv > 3 then (if Sys.argv.(3) <> "none" then Some (z_of_int (int_of_string Sys.argv.(3))) else None) else max_depth); cc_guard = guard }
 
 let hexv c = match c with
   | '0'..'9' -> Char.code c - 48 | 'a'..'f' -> Char.code c - 87 | 'A'..'F' -> Char.code c - 55 | _ -> failwith "hex"
@@ -63,7 +65,7 @@ let show_wstats t =
   Printf.sprintf "pos=%d toks=%d coords=%d elems=%d nodes=%d dmax=%d quad=%d" (zi t.wpos) (zi t.wtoks) (zi t.wcoords) (zi t.welems) (zi t.wnodes) (zi t.wdmax) (zi t.wquad)
 let run_wkt (bytes : int list) : string =
   let input = List.map Char.chr bytes in
-  match wkt_read numval cfg input with
+  match wkt_read numval cfg_wkt input with
   | WOk ((g, _), s) -> Printf.sprintf "%s %s srid=0 | %s" (if g_risky g then "ACC?" else "ACC") (show_geom g) (show_wstats s.wst)
   | WErr (EUB, t) -> "UB | " ^ show_wstats t
   | WErr (e, t) -> Printf.sprintf "REJ %s | %s" (show_err e) (show_wstats t)
